@@ -13,6 +13,9 @@ for d in sorted(glob.glob('/verif/seeded/*')):
         chk=c.get('checks',{})
         caught=[k for k,v in chk.items() if v.get('exit')==1]
         note=m.get('strengthened','')
+        fr=m.get('first_result')
+        if fr is not None and not any(v==1 for v in fr.values()) and caught:
+            note=("first verdict: MISSED. "+note).strip()
         rows.append((name, m['property'], m.get('what','')[:200], m.get('needs','')[:200], ("caught by ./check "+", ".join(caught)) if caught else "MISSED", note))
 out=["# Seeded changes (mutants)\n","Each directory: patch.diff, demo.py (exit 0 on the clean tree, 1 on the mutant; absent for F*_revert), meta.json.\n",
      "| id | property | change | needs to manifest | result | note |","|---|---|---|---|---|---|"]
